@@ -213,12 +213,14 @@ func (b *backendConfigSessionHandler) handlePluginMessage(pc *proto.PacketContex
 		_ = b.serverConn.player.WritePacket(plugin.RewriteMinecraftBrand(p,
 			b.serverConn.player.Protocol()))
 	} else {
-		bytes := pc.Payload
 		id, ok := b.proxy().ChannelRegistrar().FromID(p.Channel)
 		if !ok {
 			b.forwardToPlayer(pc, nil)
 			return
 		}
+		// The event exposes the plugin message's body, not the raw packet payload.
+		bytes := make([]byte, len(p.Data))
+		copy(bytes, p.Data)
 
 		// Handling this stuff async means that we should probably pause
 		// the connection while we toss this off into another pool
@@ -230,7 +232,9 @@ func (b *backendConfigSessionHandler) handlePluginMessage(pc *proto.PacketContex
 			data:       bytes,
 		}, func(pme *PluginMessageEvent) {
 			if pme.Allowed() && b.serverConn.active() {
-				b.forwardToPlayer(pc, &plugin.Message{
+				// Forward the data the event handlers saw (a non-nil packet context
+				// would make forwardToPlayer write the raw payload instead).
+				b.forwardToPlayer(nil, &plugin.Message{
 					Channel: p.Channel,
 					Data:    pme.Data(),
 				})
